@@ -6,7 +6,7 @@ package task
 
 //@ nonnil Executor.Taskfile Executor.Logger Executor.Compiler
 // package-level error values, initialised once by errors.New
-//@ nonnil ErrPreconditionFailed
+//@ nonnil ErrPreconditionFailed errExecutionSucceeded
 
 // keyFrom: which key function produced the result of GetHash (0 Empty, 1 Name, 2 Hash)
 //@ ghost var keyFrom int scratch
@@ -151,6 +151,7 @@ package task
 //@ ghost var shExit bool scratch
 //@ ghost var nestFailed bool scratch
 //@ ghost var runCtx context.Context scratch
+//@ ghost var execErr error scratch
 //@ ghost var fullTask *ast.Task scratch
 //@ ghost fact execOK(h string)
 //@ ghost fact execFinished(h string)   -- the registered execution for key h has returned (with any outcome)
@@ -303,17 +304,26 @@ package task
 //@   site execute#2 requires h != "" && !ok                                                            [C06]
 //@   site execute#2 ghost set execOK(h) if result == nil
 //@   site execute#2 ghost set execFinished(h)
-//@   site recv#1 ghost set execFinished(h)   -- Done() of the context registered for h is closed only when the registering call returns (defer cancel)
+//@   site execute#2 ghost execErr := result
+//@   site recv#1 ghost set execFinished(h)   -- Done() of the context registered for h is closed only by the registering call, after its execution returned
 //@   ensures result == nil && h != "" ==> execFinished(h)   -- nobody proceeds while the one real execution is still running   [C01,C06,C02]
-//@   site context.WithCancel#1 requires arg0 == ctx           -- the shared execution stays cancellable by its first caller    [C03]
+//@   site context.WithCancelCause#1 requires arg0 == ctx      -- the shared execution stays cancellable by its first caller    [C03]
 //@   site execute#1 requires arg0 == ctx                                                                  [C03]
 //@   site execute#2 requires arg0 == runCtx                                                               [C03]
-//@   site context.WithCancel#1 ghost runCtx := result.0
+//@   site context.WithCancelCause#1 ghost runCtx := result.0
+// The outcome is published through the cancellation cause of the registered context. GUARANTEE of the registering
+// caller: "succeeded" is published only for an execution that returned nil, a failure is published as itself.
+//@   site result.1:context.WithCancelCause#1 requires arg0 == errExecutionSucceeded && execOK(h)       [C01,C06]
+//@   site result.1:context.WithCancelCause#2 requires arg0 == execErr && arg0 != nil                   [C01,C06]
+// RELY of a later caller (what the guarantee above gives every thread): the cause it reads from the context
+// registered for h is "succeeded" only if that execution returned nil.
+//@   site context.Cause#1 requires arg0 == otherExecutionCtx                                           [C01,C06]
+//@   site context.Cause#1 ghost set execOK(h) if result == errExecutionSucceeded
 //@   site (Context).Done#1 requires recv == otherExecutionCtx && ok && h != ""                        [C01,C06]
 //@   site recv#1 requires ok    -- a later caller blocks until the registered execution is done       [C01,C06]
 //@   site recv#1 requires semLimited() ==> tok == 0                                                    [C07]
 //@   site recv#1 requires notAncestor(h)                                                               [C07]
-//@   ensures result == nil && h != "" ==> execOK(h)                                                   [C01,C06]
+//@   ensures result == nil && h != "" ==> execOK(h)   -- first caller and waiters alike return nil only for a successful execution  [C01,C06]
 //@   nosite delete                     -- an execution key, once registered, is never unregistered     [C06]
 
 // Callees of runCommand whose bodies are outside this proof (trusted frames).
